@@ -321,6 +321,7 @@ func checkC13(p *Prog, r *Report) {
 	ruleMacroBindAll(p, ma, r, "R-C13-BINDALL")
 	ruleC13LazyDefaults(p, ma, r)
 	ruleC13Self(p, a, ma, r)
+	ruleStateScope(p, a, r, "R-C13-STATESCOPE")
 
 	r.Begin("R-C13-POS", "the i-th argument is bound to the i-th parameter name, after (so overriding) the defaults", 1)
 	update := p.Method("Context", "Update")
